@@ -65,14 +65,21 @@ func TestZZHvBoundedC20(t *testing.T) {
 			fmt.Printf("HV-VIOLATION "+format+"\n", a...)
 		}
 	}
+	evMode := 0
 	check := func(seq []int) {
 		evals++
 		var in []DeviceInfo
 		for i, c := range seq {
 			k := hvKinds[c%len(hvKinds)]
 			p := physes[c/len(hvKinds)]
-			// Uniq carries a unique tag so that handlers can be told apart in the output; Name empty; no event node
-			in = append(in, DeviceInfo{Name: "dev", Phys: p, Uniq: fmt.Sprintf("h%d:%s", i, k.name), CapableTypes: k.caps})
+			// Uniq carries a unique tag so that handlers can be told apart in the output; Name empty.
+			// evMode 0: no event node; evMode 1: event-node names that run AGAINST the list order (so that the order of event names
+			// disagrees with the order of locations for many lists; the nodes do not exist, such handlers must still be grouped)
+			di := DeviceInfo{Name: "dev", Phys: p, Uniq: fmt.Sprintf("h%d:%s", i, k.name), CapableTypes: k.caps}
+			if evMode == 1 {
+				di.eventName = fmt.Sprintf("event9%04d", 5000-i)
+			}
+			in = append(in, di)
 		}
 		devs := Normalize(in)
 		// expected partition
@@ -135,6 +142,9 @@ func TestZZHvBoundedC20(t *testing.T) {
 		}
 	}
 	rec(nil, maxLen)
+	evMode = 1
+	rec(nil, maxLen-1)
+	evMode = 0
 	// longer lists over two locations and three kinds (interleavings A,B,A,...)
 	small := []int{0, 3, 1, 0 + len(hvKinds), 3 + len(hvKinds), 1 + len(hvKinds)}
 	var rec2 func(prefix []int, depth int)
@@ -150,7 +160,7 @@ func TestZZHvBoundedC20(t *testing.T) {
 		}
 	}
 	rec2(nil, 6)
-	fmt.Printf("HV-BOUNDED evaluations=%d violations=%d bound=%q\n", evals, viol, fmt.Sprintf("all handler lists of length<=%d over 3 locations x 5 handler kinds, and of length %d..6 over 2 locations x 3 kinds; each also reversed and rotated", maxLen, maxLen+1))
+	fmt.Printf("HV-BOUNDED evaluations=%d violations=%d bound=%q\n", evals, viol, fmt.Sprintf("all handler lists of length<=%d over 3 locations x 5 handler kinds (and of length<=%d again with event-node names running against the list order), and of length %d..6 over 2 locations x 3 kinds; each also reversed and rotated", maxLen, maxLen-1, maxLen+1))
 	if viol > 0 {
 		t.Fail()
 	}
